@@ -636,11 +636,11 @@ def _tan_surface_shapes(tier):
                       '_operations.normal_surface_single_list', 'linalg.vector_cross', 'linalg.vector_normalize',
                       'linalg.vector_magnitude', 'BSpline.Surface.derivatives'],
           quick=lambda: _tan_surface_shapes('quick'), thorough=lambda: _tan_surface_shapes('thorough'))
-def tangent_normal_surface(ctx, pu, pv, mu, mv, rational):
+def tangent_normal_surface(ctx, pu, pv, mu, mv, rational, symnet=True):
     """ensures tangent(normalize=False) == (S, D_u S, D_v S); normal(normalize=False) == D_u S x D_v S, orthogonal to both
     tangents; requires D_u S, D_v S, D_u S x D_v S != 0: normalised tangents and normal have unit length, keep their
     direction, and the unit normal is orthogonal to both tangents."""
-    U, V, su, sv, u, v, P, W, Pw, srf = _surface_setup(ctx, pu, pv, mu, mv, rational)
+    U, V, su, sv, u, v, P, W, Pw, srf = _surface_setup(ctx, pu, pv, mu, mv, rational, symnet)
     ops = ctx.geomdl('operations')
     want = surface_oracle(ctx, pu, pv, U, V, Pw, su, sv, u, v, rational, 1)
     pt, tu, tv = ops.tangent(srf, [u, v], normalize=False)
